@@ -113,7 +113,7 @@ pub fn line_roots(sink: &Sink) -> Vec<(RootDesc, Board)> {
             match rd.board() {
                 Ok(bd) => out.push((rd, bd)),
                 Err(e) => {
-                    sink.note(format!("line root skipped: {}", e));
+                    sink.start_failed("curated legal game line cannot be replayed", json!({"kind": "start", "root": rd.json()}), e);
                     break;
                 }
             }
@@ -133,18 +133,35 @@ pub const CLOCK_BASES: &[(&str, &str)] = &[
 
 pub fn fen_roots(fens: &[String], sink: &Sink) -> Vec<(RootDesc, Board)> {
     let mut out = Vec::new();
+    let mut rejected = 0;
     for f in fens {
         let rd = RootDesc::Fen(f.clone());
         match rd.board() {
             Ok(b) => out.push((rd, b)),
-            Err(e) => sink.note(format!("root skipped (rejected by the library): {}", e)),
+            Err(e) => {
+                rejected += 1;
+                sink.note(format!("root skipped (rejected by the library): {}", e));
+            }
         }
+    }
+    // Curated FEN roots are sound positions, but "sound => accepted" is not demanded, so single
+    // rejections are only noted. If the library rejects a large part of them, exploring the rest
+    // would be a vacuous pass: no verdict.
+    if rejected * 3 > fens.len() {
+        sink.fatal(format!("{} of {} curated root positions are rejected by the library", rejected, fens.len()));
     }
     out
 }
 
 pub fn start_roots(sink: &Sink) -> Vec<(RootDesc, Board)> {
-    fen_roots(&["rnbqkbnr/pppppppp/8/8/8/8/PPPPPPPP/RNBQKBNR w KQkq - 0 1".to_string()], sink)
+    let rd = RootDesc::Dfrc(518, 518);
+    match rd.board() {
+        Ok(b) => vec![(rd, b)],
+        Err(e) => {
+            sink.start_failed("orthodox start position cannot be constructed", json!({"kind": "start", "root": rd.json()}), e);
+            Vec::new()
+        }
+    }
 }
 
 pub fn mid_roots(sink: &Sink) -> Vec<(RootDesc, Board)> {
@@ -171,7 +188,7 @@ pub fn roots_960(sink: &Sink) -> Vec<(RootDesc, Board)> {
         let rd = RootDesc::Dfrc(n, n);
         match rd.board() {
             Ok(b) => out.push((rd, b)),
-            Err(e) => sink.note(format!("chess960 start {} failed: {}", n, e)),
+            Err(e) => sink.start_failed("Chess960 start position cannot be constructed", json!({"kind": "start", "root": rd.json()}), format!("chess960_startpos({}): {}", n, e)),
         }
     }
     out
@@ -186,7 +203,7 @@ pub fn dfrc_roots<'a>(sink: &'a Sink, white: std::ops::Range<u32>, black_stride:
             match rd.board() {
                 Ok(bd) => Some((rd, bd)),
                 Err(e) => {
-                    sink.note(format!("dfrc start {},{} failed: {}", w, b, e));
+                    sink.start_failed("double Chess960 start position cannot be constructed", json!({"kind": "start", "root": rd.json()}), format!("double_chess960_startpos({}, {}): {}", w, b, e));
                     None
                 }
             }
@@ -567,6 +584,10 @@ impl EpUniverse {
     }
     pub fn small() -> EpUniverse {
         EpUniverse { king_squares: vec![4, 24, 27, 31, 36, 60], extra_kinds: vec![(Kind::R, false), (Kind::B, false)] }
+    }
+    /// own sliders as the extra piece: en-passant captures that open a line for the capturer's side
+    pub fn own_sliders() -> EpUniverse {
+        EpUniverse { king_squares: vec![4, 24, 27, 31, 36, 60], extra_kinds: vec![(Kind::B, true), (Kind::R, true), (Kind::Q, true)] }
     }
     pub fn full() -> EpUniverse {
         EpUniverse {
